@@ -103,7 +103,7 @@ def convolve1d(f, weights, axis, mode='reflect', cval=0., out=None):
         generic convolution
     '''
     weights = np.asanyarray(weights)
-    weights = weights.squeeze()
+    weights = np.atleast_1d(weights.squeeze())
     if weights.ndim != 1:
         raise ValueError('mahotas.convolve1d: only 1-D sequences allowed')
     _check_mode(mode, cval, 'convolve1d')
